@@ -1025,7 +1025,8 @@ EXPECT = ["C08.pre_drawn_jump_counts_are_distinct_variates", "C08.seeded_run_put
 
 
 def main(tier):
-    bounds = {"standard": "<= 2 (quick) / 3 (thorough) paths, 1 or 2 worker processes with any contiguous chunking, seed None / 7 / 0, direct simulation on one maturity with <= 1 jump",
+    bounds = {"histories_and_variants": 'fixed-level variant with 2 pre-drawn level-0 rows run twice from different generator states; jump-time mode: one path, <= 1 jump per draw of the Poisson model',
+              "standard": "<= 2 (quick) / 3 (thorough) paths, 1 or 2 worker processes with any contiguous chunking, seed None / 7 / 0, direct simulation on one maturity with <= 1 jump",
               "multilevel": "levels 0..1, initial N0 = 1, one extra pass, single process, seed None / 7 / 0, any clock readings (non-decreasing) and pids",
               "outside": "the Python `random` generator (seeded alongside, not consumed here), jump-time simulation mode, worker pools in the multilevel engine, >= 3 workers"}
     return run_check(PID, tier, harnesses(tier), expect=EXPECT, bounds=bounds,
